@@ -19,7 +19,10 @@ use crate::vocab;
 use crate::Ctx;
 
 fn extra_schema(rng: &mut Rng) -> Value {
-    match rng.below(8) {
+    match rng.below(11) {
+        8 => json!({"type":"object","properties":{"a":{"type":"integer"},"b":false}}),
+        9 => json!({"type":"object","properties":{"n":{"type":"integer","minimum":5,"maximum":3},"m":{"type":"integer"}},"additionalProperties":{"type":"integer"}}),
+        10 => json!({"type":"object","properties":{"id":{"type":"string","maxLength":2},"legacy":false},"required":["id"]}),
         0 => json!({"allOf":[{"type":"integer","minimum":-5},{"type":"integer","maximum":40,"multipleOf":4}]}),
         1 => json!({"allOf":[{"type":"string","minLength":2},{"type":"string","maxLength":4}]}),
         2 => json!({"oneOf":[{"type":"integer","minimum":0},{"type":"string","maxLength":2},{"type":"null"}]}),
@@ -69,7 +72,95 @@ fn dup_named_key(v: &JV, named: &[String]) -> Option<String> {
     }
 }
 
-pub fn run_case(_ctx: &Ctx, case: &Value, tag: usize, rep: &mut Report, mb: &mut ModelBatch) {
+/// variants of an instance that are likely to fall just outside a schema: named keys added with values of
+/// every kind, numbers moved, strings and arrays lengthened or shortened, keys dropped
+fn mutants(v: &JV, named: &[String], rng: &mut Rng, out: &mut Vec<JV>) {
+    let vals = || vec![js::from_value(&json!(1)), JV::Null, JV::Str("x".into()), JV::Bool(true), JV::Obj(vec![]), JV::Arr(vec![]), js::from_value(&json!(4)), js::from_value(&json!(-3))];
+    match v {
+        JV::Obj(kvs) => {
+            for k in named.iter().take(6) {
+                if kvs.iter().any(|(k2, _)| k2 == k) { continue; }
+                for x in vals() {
+                    let mut n = kvs.clone();
+                    if rng.chance(1, 2) { n.push((k.clone(), x)); } else { n.insert(0, (k.clone(), x)); }
+                    out.push(JV::Obj(n));
+                }
+            }
+            for i in 0..kvs.len() {
+                let mut n = kvs.clone(); n.remove(i); out.push(JV::Obj(n));
+                let mut sub = vec![];
+                mutants(&kvs[i].1, named, rng, &mut sub);
+                for m in sub.into_iter().take(12) { let mut n = kvs.clone(); n[i].1 = m; out.push(JV::Obj(n)); }
+                for x in vals().into_iter().take(5) { let mut n = kvs.clone(); n[i].1 = x; out.push(JV::Obj(n)); }
+            }
+        }
+        JV::Arr(xs) => {
+            if let Some(l) = xs.last() { let mut n = xs.clone(); n.push(l.clone()); out.push(JV::Arr(n.clone())); n.push(l.clone()); out.push(JV::Arr(n)); }
+            if !xs.is_empty() { out.push(JV::Arr(xs[1..].to_vec())); out.push(JV::Arr(xs[..xs.len() - 1].to_vec())); }
+            for x in vals().into_iter().take(4) { let mut n = xs.clone(); n.push(x); out.push(JV::Arr(n)); }
+            for i in 0..xs.len().min(3) {
+                let mut sub = vec![];
+                mutants(&xs[i], named, rng, &mut sub);
+                for m in sub.into_iter().take(8) { let mut n = xs.clone(); n[i] = m; out.push(JV::Arr(n)); }
+            }
+        }
+        JV::Str(t) => {
+            out.push(JV::Str(format!("{t}a"))); out.push(JV::Str(format!("{t}abcdefgh")));
+            if !t.is_empty() { out.push(JV::Str(t.chars().skip(1).collect())); }
+            out.push(JV::Str(String::new()));
+            out.push(JV::Null); out.push(js::from_value(&json!(1)));
+        }
+        JV::Num { .. } => {
+            let txt = js::serialize(v, 0);
+            if let Ok(x) = txt.parse::<f64>() {
+                for d in [1.0, -1.0, 0.5, -0.5, 0.25, 10.0, -10.0, 0.1] {
+                    let y = x + d;
+                    let t = if y.fract() == 0.0 && y.abs() < 1e15 { format!("{}", y as i64) } else { format!("{y}") };
+                    if !t.contains('e') { if let Ok(n) = js::parse(t.as_bytes()) { out.push(n); } }
+                }
+                if let Ok(n) = js::parse(format!("{txt}0").as_bytes()) { out.push(n); }
+            }
+            out.push(JV::Str("1".into())); out.push(JV::Null);
+        }
+        JV::Bool(b) => { out.push(JV::Bool(!b)); out.push(JV::Null); out.push(js::from_value(&json!(0))); }
+        JV::Null => { out.push(JV::Bool(false)); out.push(js::from_value(&json!(0))); out.push(JV::Str(String::new())); }
+    }
+}
+
+/// the contrapositive, directed: instances the Lean validator S5 refuses must not be producible — fed
+/// byte by byte, the engine must refuse a byte or end in a non-accepting state
+fn directed_negatives(ctx: &Ctx, schema: &Value, g: &Gram, named: &[String], rng: &mut Rng, rep: &mut Report, tag: usize, budget: usize) {
+    let sb = vocab::single_byte_words();
+    let eos = sb.len() as u32 - 1;
+    let Ok(w1) = World::new(sb, eos, false, None) else { return; };
+    let mut cands: Vec<JV> = vec![];
+    let mut seeds: Vec<JV> = vec![];
+    for _ in 0..6 { let v = js::gen_instance(rng, schema, schema, 0); if !seeds.contains(&v) { seeds.push(v); } }
+    for sd in &seeds {
+        let mut m = vec![];
+        mutants(sd, named, rng, &mut m);
+        for x in m { if !cands.contains(&x) && js::max_abs_exp(&x) <= 400 { cands.push(x); } }
+        if !cands.contains(sd) { cands.push(sd.clone()); }
+    }
+    // keep a seeded sample within the budget
+    while cands.len() > budget { let k = rng.below(cands.len()); cands.swap_remove(k); }
+    let mut reqs = vec![format!("json schema {tag} {}", js::to_sexp(&js::from_value(schema)))];
+    for c in &cands { reqs.push(format!("json v {tag} {}", js::to_sexp(c))); }
+    let Ok(resp) = ModelBatch::run_raw(&ctx.model_exe, &reqs) else { rep.fail("model", "c06:model-driver", "model driver failed".into(), json!({"schema": schema})); return; };
+    if resp[0] != "ok" { return; }
+    for (c, r) in cands.iter().zip(resp.iter().skip(1)) {
+        if r.as_str() != "0" { rep.count("directed.valid-or-undecided"); continue; }
+        rep.count("directed.invalid-candidates");
+        let text = js::serialize(c, 0);
+        let toks: Vec<u32> = text.as_bytes().iter().map(|b| *b as u32).collect();
+        if c07::feed(&w1, g, &toks).is_ok() {
+            rep.fail("spec", "c06:invalid-instance-producible", format!("the engine admits {text:?} token by token and ends accepting, but the instance does not validate (Lean validator S5)"), json!({"schema": schema, "output": text}));
+            return;
+        }
+    }
+}
+
+pub fn run_case(ctx: &Ctx, case: &Value, tag: usize, rep: &mut Report, mb: &mut ModelBatch) {
     let schema = &case["schema"];
     let mut rng = Rng::new(case["seed"].as_u64().unwrap_or(1));
     let g = Gram::Json(schema.clone());
@@ -106,6 +197,7 @@ pub fn run_case(_ctx: &Ctx, case: &Value, tag: usize, rep: &mut Report, mb: &mut
         }
         if m.is_accepting().unwrap_or(false) && !outputs.contains(&bytes) { outputs.push(bytes.clone()); }
     }
+    directed_negatives(ctx, schema, &g, &named, &mut rng, rep, tag, if case["walks"].as_u64().unwrap_or(10) > 10 { 160 } else { 60 });
     rep.count_n("outputs.sampled", outputs.len() as u64);
     if outputs.is_empty() { rep.skip("no-complete-output-sampled"); return; }
     rep.nontrivial(schema.to_string());
